@@ -86,6 +86,34 @@ class Reporter:
         return {f"{r}: {c}": n for (r, c), n in sorted(self.n.items())}
 
 
+def _henry():
+    from pygaps.modelling import get_isotherm_model
+    return get_isotherm_model("Henry", parameters={"K": 2.0}, rmse=0.0, pressure_range=(0.0, 1.0), loading_range=(0.0, 2.0))
+
+
+def _object_in_constructor(ck, pg, rep, route, o, query):
+    """`Cls(adsorbate=<Adsorbate object>)` (always the metadata-only class; the shorthand and the two data classes sampled): the isotherm
+    holds that very object, registered or not."""
+    from pygaps.core.baseisotherm import BaseIsotherm
+    ck.count(("route-object", route, o.name, query), bucket="routes:" + route + ":object-in-constructor")
+    makers = [("BaseIsotherm", lambda: BaseIsotherm(material="pgv_m", adsorbate=o, temperature=300))]
+    pick = ck.rng.random()
+    if pick < 0.15:
+        makers.append(("BaseIsotherm(a=)", lambda: BaseIsotherm(m="pgv_m", a=o, t=300)))
+    elif pick < 0.3:
+        makers.append(("PointIsotherm", lambda: pg.PointIsotherm(pressure=[1.0, 2.0], loading=[1.0, 2.0], material="pgv_m", adsorbate=o, temperature=300)))
+    elif pick < 0.4:
+        makers.append(("ModelIsotherm", lambda: pg.ModelIsotherm(model=_henry(), material="pgv_m", adsorbate=o, temperature=300)))
+    for cname, make in makers:
+        try:
+            held = make().adsorbate
+        except Exception as e:  # noqa
+            rep(route, "isotherm created with the adsorbate object raises", query, {"class": cname, "adsorbate": o.name, "error": repr(e)[:200]})
+            continue
+        if held is not o:
+            rep(route, "isotherm created with the adsorbate object holds that object", query, {"class": cname, "adsorbate": o.name, "held": _desc(held, o)})
+
+
 def sweep(ck, pg, rep, route, objs, declared, n_link, swap=True, negatives=()):
     """declared: [(object, [written strings])].  Returns the number of failures."""
     from pygaps.core.baseisotherm import BaseIsotherm
@@ -145,8 +173,6 @@ def sweep(ck, pg, rep, route, objs, declared, n_link, swap=True, negatives=()):
                 try:
                     iso = BaseIsotherm(material="pgv_m", adsorbate=v, temperature=300)
                     linked = iso.adsorbate
-                    # TODO(candidate defect, kept out of the generator): BaseIsotherm(adsorbate=<Adsorbate object>) raises AttributeError on the
-                    # unchanged tree (`None in [material, adsorbate, temperature]` calls Adsorbate.__eq__(None)); the object is assigned instead
                     iso2 = BaseIsotherm(material="pgv_m", adsorbate=s, temperature=300)
                     iso2.adsorbate = o
                     by_obj = iso2.adsorbate
@@ -159,6 +185,9 @@ def sweep(ck, pg, rep, route, objs, declared, n_link, swap=True, negatives=()):
                     rep(route, "isotherm created with a name or alias is linked to that adsorbate", v,
                         {"written": s, "expected": o.name, "constructor(adsorbate=string)": _desc(linked, o),
                          "assignment(adsorbate=object)": _desc(by_obj, o), "assignment(adsorbate=string)": _desc(assigned, o)})
+                # the designated adsorbate itself as the constructor argument (the documented alternative to its name; S56-C20: refused with
+                # AttributeError before the repair of Adsorbate.__eq__, because `None in [material, adsorbate, temperature]` compared it with None)
+                _object_in_constructor(ck, pg, rep, route, o, v)
         for q in negatives:
             if q.lower() in owners:
                 continue
@@ -500,10 +529,11 @@ def run(ck, pg):
                                 got = "EXC:" + type(ex).__name__
                             if got is not None:
                                 rep(route, "a string that is no name or alias is found", v, {"got": got})
-                    iso = BaseIsotherm(material="pgv_m", adsorbate="nitrogen", temperature=300)   # (object in the constructor: see TODO in sweep)
+                    iso = BaseIsotherm(material="pgv_m", adsorbate="nitrogen", temperature=300)
                     iso.adsorbate = a
                     if iso.adsorbate is not a or pg.Adsorbate.find(a) is not a:
                         rep(route, "isotherm given an adsorbate object holds that object", a.name, {})
+                    _object_in_constructor(ck, pg, rep, route, a, a.name)
                 if not (len(reg) == len(original) and all(x is y for x, y in zip(reg, original))):
                     rep(route, "registry changed by adsorbates that were not stored", written[0][0], {"length": len(reg), "original": len(original)})
             else:
